@@ -622,6 +622,12 @@ async def _timer(
             if stopper.is_set():
                 continue
 
+        # The clock of a new series (``started``, which ``timeout=`` is counted from) begins with
+        # its first attempt, not with the wait for the object to become idle: otherwise,
+        # ``idle >= timeout`` fails the series with a timeout before the function is ever called.
+        if not state[handler.id].retries:
+            state = progression.State.from_scratch().with_handlers([handler])
+
         # Remember the start time for the sharp timing and idle-time-waster below.
         started = clock()
 
